@@ -7,10 +7,12 @@ from checks._view import run_view_check, replay  # noqa: F401
 
 
 def want(case, sig):
-    return sig.startswith("decode-ext/")
+    # random access on inflated images, and cursor access / visiting on them
+    return sig.startswith("decode-ext/") or (case.get("ext") and (sig.startswith("cursor") or sig.startswith("visit/")))
 
 
 def run(v, tier, seed):
-    return run_view_check(v, tier, seed, want, [viewpipe.view_results, viewpipe.header_results],
-                          "decode vectors whose shape extends the wire blockLength of at least one level (independently per level)",
+    return run_view_check(v, tier, seed, want, [viewpipe.view_results, viewpipe.header_results,
+                                                viewpipe.cursor_results, viewpipe.visit_results],
+                          "decode, cursor-call and visit vectors whose shape extends the wire blockLength of at least one level (independently per level)",
                           "DecodeRefines/SizesAgree quantify over geometry (ext per level); replay on inflated images")
